@@ -76,6 +76,17 @@ def run(chk: Check) -> None:
                        "%s.decode does not pass its get_by_uuid on to %s: nested UUID/Offset "
                        "entries would come back as plain UUIDs" % (c.qualname, unparse(call.func)), 2)
     chk.floor("R07.1", "codec classes with bodies", n_dual, 11)
+    bc = chk.repo.cls_opt("BoolCodec")
+    if bc is not None and bc.methods.get("decode") is not None:
+        bd = bc.methods["decode"]
+        cmpb = [n for n in walk_no_nested(bd.node) if isinstance(n, ast.Compare) and len(n.ops) == 1
+                and isinstance(n.comparators[0], ast.Constant) and isinstance(n.comparators[0].value, bytes)]
+        okb = len(cmpb) == 1 and (
+            (isinstance(cmpb[0].ops[0], ast.NotEq) and cmpb[0].comparators[0].value == b"\x00") or
+            (isinstance(cmpb[0].ops[0], ast.Eq) and cmpb[0].comparators[0].value == b"\x01"))
+        chk.ob("R07.1", "BoolCodec.decode:nonzero-is-true", okb, bd.loc(),
+               "bool decodes as 'the byte is not zero' (the encoder writes bytes([val])): %s"
+               % [unparse(n) for n in cmpb], 2)
     _param_tables(chk, cf)
     _tree_dispatch(chk, cf)
     _uuid_resolution(chk, cf)
@@ -178,6 +189,16 @@ def _tree_dispatch(chk: Check, cf: CodecFacts) -> None:
                                     and attr_path(n.comparators[0]) == (me, "codecs"))
             cn = cfg.node_of(c)
             g_ok = bool(guard) and all(cfg.dominates(g, cn) for g in guard)
+            # the dispatch happens on the 'known head' outcome, the other one raises UnknownCodecError
+            known_br = set()
+            for g in guard:
+                t_ = cfg.info[g].ast
+                for b in cfg.g.successors(g):
+                    bi = cfg.info[b]
+                    if bi.kind == "branch" and isinstance(t_, ast.Compare) and \
+                            bi.value == isinstance(t_.ops[0], ast.In):
+                        known_br.add(b)
+            g_ok = g_ok and bool(known_br) and cfg.path_avoiding(cfg.entry, cn, known_br) is None
             chk.ob("R07.3", "Serialization.%s:unknown-head-guard" % nm, g_ok, f.loc(),
                    "Serialization.%s does not test '%s.name in self.codecs' before dispatching"
                    % (nm, tname), 2)
